@@ -179,6 +179,7 @@ ACCESS = {
     ("StrictClockModel", "rate"): lambda o: o._rates,
     ("SimpleClockModel", "tree_model"): lambda o: o.tree,
     ("SimpleClockModel", "rate"): lambda o: o._rates,
+    ("Logger", "parameters"): lambda o: list(o.objs),
 }
 
 
@@ -380,6 +381,153 @@ def body(case):
     return fin()
 
 
+# --------------------------------------------------------------------------- through the real entry point
+def run_main(spec):
+    """torchtree.torchtree.main() in-process on the specification written to a private directory
+    (cwd switched, argv patched, everything removed afterwards). Returns a dict with the registry
+    main threaded through process_objects, the exception process_objects raised, the exception
+    that escaped main, and the files the run left behind."""
+    import shutil
+    import sys
+    import tempfile
+
+    tt.load_all()
+    import torchtree.torchtree as entry
+
+    logging.disable(logging.CRITICAL)
+    out = {"dic": {}, "inner": None, "escaped": None, "files": {}, "calls": 0}
+    real = entry.process_objects
+
+    def spy(data, dic, *a, **k):
+        out["dic"] = dic
+        out["calls"] += 1
+        try:
+            return real(data, dic, *a, **k)
+        except Exception as e:  # noqa
+            out["inner"] = e
+            raise
+
+    work = tempfile.mkdtemp(prefix="c13main-")
+    cwd, argv = os.getcwd(), sys.argv
+    try:
+        with open(os.path.join(work, "spec.json"), "w") as f:
+            json.dump(spec, f)
+        os.chdir(work)
+        sys.argv = ["torchtree", "spec.json"]
+        entry.process_objects = spy
+        try:
+            entry.main()
+        except SystemExit as e:
+            out["escaped"] = e
+        except Exception as e:  # noqa
+            if impl_frame(e) is None:
+                raise
+            out["escaped"] = e
+        for fn in sorted(os.listdir(work)):
+            if fn != "spec.json":
+                with open(os.path.join(work, fn), newline="") as f:
+                    out["files"][fn] = f.read()
+    finally:
+        entry.process_objects = real
+        sys.argv = argv
+        os.chdir(cwd)
+        torch.set_default_dtype(torch.float64)
+        shutil.rmtree(work, ignore_errors=True)
+    return out
+
+
+def body_main(case):
+    from torchtree.core.utils import JSONParseError
+
+    spec = case["spec"]
+    it = interp_of(case)
+    tags = it.fault_tags()
+    tags["bucket"] = tags["fault"] + "/" + tags["relation"]
+    loggers = [n for n in it.nodes if n["cls"] == "Logger" and n["id"] is not None and it.reg.get(n["id"]) is n and len(n["path"]) == 1]
+    res = Res(nontrivial=it.decorated or it.plates or bool(it.faults), key=skeleton(spec), tags=tags)
+    labels = ["decorated" if it.decorated else "plain"]
+    if it.plates:
+        labels.append("plates")
+    if any(idlang._ignored(e) and idlang.is_plate(e) for e in _walk_dicts(spec)):
+        labels.append("ignored_plate")
+    if any(idlang._ignored(e) and e.get("type") == "Logger" for e in _walk_dicts(spec)):
+        labels.append("ignored_runnable")
+
+    def fin():
+        res.labels = tuple(labels)
+        return res
+
+    if it.malformed is not None or it.order_dependent:
+        labels.append("skipped")
+        res.nontrivial = False
+        return fin()
+    r = run_main(spec)
+    dic, esc = r["dic"], r["escaped"]
+    ghosts = [f for f in r["files"] if f.startswith("ghost")]
+    if ghosts:
+        res.fail("ignored_runnable_ran", {"files": {f: r["files"][f] for f in ghosts}, "spec": spec})
+        return fin()
+
+    if it.faults:
+        labels.append("illformed")
+        top = it.fault_top
+        err = esc if esc is not None else r["inner"]
+        if err is None:
+            res.fail("accepted", {"faults": sorted(set(it.faults)), "registry": sorted(map(str, dic))[:20], "spec": spec})
+            return fin()
+        if not isinstance(err, JSONParseError):
+            res.fail("wrong_exception:" + type(err).__name__, dict(_exc_info(err), faults=sorted(set(it.faults)), spec=spec))
+            return fin()
+        labels.append("raised")
+        labels.append("reported_by_main" if esc is None else "escaped_main")
+        # everything before the faulty top-level element exists, nothing after it was constructed or run
+        before = {k for k, n in it.reg.items() if n["path"][0] < top}
+        after = {k for k, p in it.defined.items() if p[0] > top}
+        if not before <= set(dic) or (after & set(dic)):
+            res.fail("construction_continued", {"fault_at_element": top, "missing": sorted(map(str, before - set(dic)))[:10],
+                                                "constructed_after": sorted(map(str, after & set(dic)))[:10], "spec": spec})
+            return fin()
+        want_files = {n["file_name"] for n in loggers if n["path"][0] < top}
+        maybe = {n["file_name"] for n in loggers if n["path"][0] == top}
+        if not (want_files <= set(r["files"]) <= want_files | maybe):
+            res.fail("runnables_after_error", {"files": sorted(r["files"]), "expected": sorted(want_files), "spec": spec})
+        return fin()
+
+    labels.append("wellformed")
+    if esc is not None or r["inner"] is not None:
+        e = esc or r["inner"]
+        res.fail("rejected:" + type(e).__name__, dict(_exc_info(e), spec=spec))
+        return fin()
+    if list(dic) != list(it.reg):
+        res.fail("registry", {"loaded": list(map(str, dic))[:30], "expected": list(map(str, it.reg))[:30], "spec": spec})
+        return fin()
+    want = {k: idlang.value(n) for k, n in it.reg.items()}
+    got, exc = observe_all(dic)
+    if exc is not None:
+        res.fail("evaluation_raises:" + type(exc).__name__, dict(_exc_info(exc), spec=spec))
+        return fin()
+    diff = compare(got, want, TOL)
+    if diff is not None:
+        res.fail("value", dict(diff, spec=spec))
+        return fin()
+    want_files = {n["file_name"]: idlang.logger_file(n) for n in loggers}
+    if want_files:
+        labels.append("runnables")
+    if r["files"] != want_files:
+        res.fail("runnable_output", {"files": r["files"], "expected": want_files, "spec": spec})
+    return fin()
+
+
+def _walk_dicts(o):
+    if isinstance(o, dict):
+        yield o
+        for v in o.values():
+            yield from _walk_dicts(v)
+    elif isinstance(o, list):
+        for v in o:
+            yield from _walk_dicts(v)
+
+
 # --------------------------------------------------------------------------- selftest (oracle calibration)
 def selftest():
     tt.load_all()
@@ -422,6 +570,7 @@ def subchecks(tier):
 
     subs = [
         Sub("spec", body, strategy=idspec.cases, quick=2400, thorough=45000, pretags=pretags, raising_is_failure=False, shrink_s=40),
+        Sub("main", body_main, strategy=idspec.cases_main, quick=1000, thorough=16000, pretags=pretags, raising_is_failure=False, shrink_s=40),
         Sub("factory", c13factory.body, strategy=c13factory.cases, quick=600, thorough=6000, pretags=c13factory.pretags),
     ]
     if tier == "thorough":
